@@ -788,6 +788,7 @@ def count_ops(prog) -> int:
 
 def run_execution(case: dict, *, max_invocations: int | None = None, hooks: dict | None = None) -> ExecResult:
     run = ExecResult()
+    run.case = case
     backend = Backend(case.get("backend"), input_payload=case.get("input_payload", "{}"))
     run.backend = backend
     backend.on_update = lambda e: e.__setitem__("clk", run.clock())
@@ -996,7 +997,19 @@ def _mk_hooks(run, backend, ext, delivered_ext, user_hooks):
         if user_hooks and user_hooks.get("after_apply"):
             user_hooks["after_apply"](boto, rec)
 
+    first_seen: dict = {}
+    patience = run.case.get("ext_patience", 60.0) if hasattr(run, "case") else 60.0
+
     def before_api(boto, rec):
+        # the premise of liveness: external parties always answer - also while an invocation is still running (a
+        # workflow that keeps polling inside one invocation must not starve them): at the latest `patience` virtual
+        # seconds after the operation was first seen outstanding
+        now = boto.sched.now if boto.sched else backend.now
+        for op in backend.outstanding_external():
+            t0 = first_seen.setdefault(op["Id"], now)
+            if now - t0 >= patience and op["Id"] not in delivered_ext:
+                _deliver(backend, op, ext.get(op.get("_path")) or _default_ext(op))
+                delivered_ext.add(op["Id"])
         for op in backend.outstanding_external():
             e = ext.get(op.get("_path"))
             if e and e.get("when") == "next_api" and op["Id"] not in delivered_ext and op.get("_created_inv") == run.inv:
